@@ -226,16 +226,17 @@ func (s *server) get(q query) string {
 type cstr struct {
 	s     string
 	class string // "" = needs no escaping; otherwise the one thing in it that does
+	pair  bool   // used for two-entity sets in the quick tier (thorough: all)
 }
 
 var strs = []cstr{
-	{"a", ""}, {"a/b", ""}, {"~^x$", ""}, {"", ""}, {"a}b", ""}, {"a{b", ""}, {"a,b=c", ""}, {"é中", ""},
-	{"a b", ""}, {"#x 1", ""}, {"a'b", ""}, {"a\tb", ""}, {"a\rb", ""}, {"live/cam-1_2.~:x", ""},
-	{`a"b`, "quote"}, {`"`, "quote"}, {`a",b="c`, "quote"}, {`a,b="c"`, "quote"}, {`x"} 7`, "quote"},
-	{`a\b`, "backslash"}, {`a\nb`, "backslash"}, {`a\`, "backslash"}, {`a\\b`, "backslash"},
-	{"a\nb", "newline"}, {"\n", "newline"}, {"a\n# HELP x y", "newline"}, {"a\npaths 9", "newline"},
-	{"a\xffb", "invalid-utf8"}, {"\xc3", "invalid-utf8"},
-	{`\"`, "mixed"}, {"\"\n\\", "mixed"},
+	{"a", "", true}, {"a/b", "", true}, {"~^x$", "", false}, {"", "", true}, {"a}b", "", false}, {"a{b", "", false}, {"a,b=c", "", true}, {"\u00e9\u4e2d", "", true},
+	{"a b", "", false}, {"#x 1", "", false}, {"a'b", "", false}, {"a\tb", "", false}, {"a\rb", "", false}, {"live/cam-1_2.~:x", "", false},
+	{`a"b`, "quote", true}, {`"`, "quote", false}, {`a",b="c`, "quote", true}, {`a,b="c"`, "quote", false}, {`x"} 7`, "quote", false},
+	{`a\b`, "backslash", true}, {`a\nb`, "backslash", true}, {`a\`, "backslash", false}, {`a\\b`, "backslash", false},
+	{"a\nb", "newline", true}, {"\n", "newline", false}, {"a\n# HELP x y", "newline", false}, {"a\npaths 9", "newline", true},
+	{"a\xffb", "invalid-utf8", true}, {"\xc3", "invalid-utf8", false},
+	{`\"`, "mixed", true}, {"\"\n\\", "mixed", false},
 }
 
 // types whose entity carries a client-chosen string and under which label
@@ -332,8 +333,17 @@ func genCases(thorough bool) []kase {
 			for _, a := range strs {
 				choices = append(choices, []cstr{a})
 			}
-			for _, a := range strs {
-				for _, b := range strs {
+			pairStrs := strs
+			if !thorough {
+				pairStrs = nil
+				for _, c := range strs {
+					if c.pair {
+						pairStrs = append(pairStrs, c)
+					}
+				}
+			}
+			for _, a := range pairStrs {
+				for _, b := range pairStrs {
 					if !compatible(a, b) || (keyedByStr && a.s == b.s) {
 						continue
 					}
@@ -341,7 +351,7 @@ func genCases(thorough bool) []kase {
 				}
 			}
 		} else {
-			choices = append(choices, []cstr{{"", ""}}, []cstr{{"", ""}, {"", ""}})
+			choices = append(choices, []cstr{{s: ""}}, []cstr{{s: ""}, {s: ""}})
 		}
 		for _, ch := range choices {
 			ch := ch
@@ -521,7 +531,7 @@ func main() {
 	cases := genCases(r.Thorough())
 	r.Rule = fmt.Sprintf("for each of the 13 entity types: every set of 0, 1 or 2 entities whose client-chosen string (path / name) ranges over a %d-string alphabet "+
 		"(14 harmless incl. empty, regexp name, braces, comma/equals, non-ASCII, TAB, CR; 17 needing escaping: quote, backslash, line feed, invalid UTF-8, mixed; "+
-		"pairs combine at most one escaping class) x counter magnitudes {distinct small, 0, near 2^63-1, >2^53; floats incl. NaN/Inf/1e21} x baseline "+
+		"pairs combine at most one escaping class; quick tier: pairs over a 13-string sub-alphabet with every class) x counter magnitudes {distinct small, 0, near 2^63-1, >2^53; floats incl. NaN/Inf/1e21} x baseline "+
 		"{others empty, others populated, others not configured} (all crossed for <=1 entity [thorough: also for 2]) x paths: ready x reader sets x 0-2 forward destinations "+
 		"x every query variant {none, type=T, type=other, type=unknown, filter=id of each entity (with and without type), filter=nonexistent, path= for forward destinations}; "+
 		"plus the MoQ reachability corpus (CLIENT_SETUP PATH strings through the real session code) and an HTTP-listener equivalence corpus. "+
